@@ -34,8 +34,18 @@ def main():
     name = sys.argv[1]
     oracle = fuzz_oracles.TARGETS[name]
 
+    contract = "C19" in fuzz_oracles.ACTIVE
+
     def one(data: bytes) -> None:
-        oracle(data)
+        determinism.reset([name, data.hex()])  # the draws of a case depend on the case alone, in the campaign as in the replay
+        try:
+            oracle(data)
+        except fuzz_oracles.FuzzViolation:
+            raise
+        except Exception:  # noqa: BLE001
+            if contract:
+                raise
+            # an exception outside the library's classes is C19's finding: a campaign for another property goes on past it
 
     atheris.Setup([sys.argv[0], *sys.argv[2:]], one)
     atheris.Fuzz()
